@@ -449,7 +449,17 @@ fn gen_p(ctx: &Ctx, seed: u64, run_index: u64) -> PScn {
         0..=7 => {}
         8..=14 => plan = worldp::benign_plan(&mut y, &shape, 0.35),
         15..=18 => {
-            if let Some((e, _)) = worldp::hard_fault(&mut y, &shape) {
+            let first_reads: Vec<u64> = shape.iter().filter(|t| t.call == "read" && t.res > 0).map(|t| t.idx).collect();
+            if !first_reads.is_empty() && y.chance(0.12) {
+                // the input ends before its announced size (cut short after open): optionally after a first part
+                let idx = *y.pick(&first_reads);
+                if y.chance(0.5) {
+                    plan.push(PlanEntry { idx, kind: PlanKind::Short(1 + y.below(64)) });
+                    plan.push(PlanEntry { idx: idx + 1, kind: PlanKind::Eof });
+                } else {
+                    plan.push(PlanEntry { idx, kind: PlanKind::Eof });
+                }
+            } else if let Some((e, _)) = worldp::hard_fault(&mut y, &shape) {
                 // a disk that fills up (or an I/O error) in the middle of a transfer: the call first moves only
                 // part of the data, the continuation then fails
                 let mid_transfer = matches!(e.kind, PlanKind::Err(_)) && y.chance(0.3);
@@ -897,7 +907,7 @@ impl Property for C16 {
         json!({
             "real_components": ["cteepbd library (all public entry points)", "cteepbd CLI binary, release profile (panic=abort); debug profile in the thorough tier", "clap, serde_json, Rust std I/O, glibc, kernel tmpfs"],
             "stubbed_components": ["entropy source (getrandom)", "pass-through layer over open/read/write/close of tracked files that may shorten, fail or pre-empt a call"],
-            "fault_kinds_available": {"stored_data": faults::FAULT_KINDS, "syscall_benign": ["eintr(open/read/write)", "short read", "short write"], "syscall_hard": ["open: ENOENT EACCES EISDIR EMFILE ENOMEM", "create: EACCES ENOSPC EROFS ENOENT EISDIR EMFILE", "read: EIO", "write: ENOSPC EIO EDQUOT"], "lifecycle": ["crash (_exit) before tracked call k, then clean re-run"], "disk_history": ["stale longer file at output path", "output path is a directory", "output directory missing", "input file missing"]},
+            "fault_kinds_available": {"stored_data": faults::FAULT_KINDS, "syscall_benign": ["eintr(open/read/write)", "short read", "short write"], "syscall_other": ["read: premature end of file (file cut short after open)"], "syscall_hard": ["open: ENOENT EACCES EISDIR EMFILE ENOMEM", "create: EACCES ENOSPC EROFS ENOENT EISDIR EMFILE", "read: EIO", "write: ENOSPC EIO EDQUOT"], "lifecycle": ["crash (_exit) before tracked call k, then clean re-run"], "disk_history": ["stale longer file at output path", "output path is a directory", "output directory missing", "input file missing"]},
         })
     }
 }
